@@ -58,6 +58,34 @@ def make_overlay(tmp):
     return ov
 
 
+def write_twins(tmp, module):
+    """Generate the arm-twin file for `module` from /repo/src (see registry.TWINS). Returns path or None."""
+    twins = registry.TWINS.get(module)
+    if not twins:
+        return None
+    out = ["//! GENERATED on every run by /verif/lib/driver.py from /repo/src: match arms as methods, text verbatim",
+           "#![allow(unused_variables, unused_mut, dead_code)]", "use super::*;"]
+    by_impl = {}
+    for t in twins:
+        text = open(os.path.join(REPO, "src", t["file"])).read()
+        mask = extract.code_mask(text)
+        fs, bo, bc = extract.find_fn(text, mask, t["fn"], t.get("impl"))
+        k, a, b = extract.find_arm(text, mask, bo, bc, t["arm"])
+        body = text[a:b]
+        if k == "expr":
+            body = body.strip() + ";"
+        body, _ = extract.expand_macro_calls(body, text, mask)
+        by_impl.setdefault(t.get("impl"), []).append("    pub(crate) fn %s%s {\n%s\n        %s\n    }" % (t["name"], t["sig"], body, t["tail"]))
+    for impl, fns in by_impl.items():
+        out.append("impl %s {" % impl)
+        out += fns
+        out.append("}")
+    path = os.path.join(tmp, "twins_%s.rs" % module)
+    with open(path, "w") as f:
+        f.write("\n".join(out) + "\n")
+    return path
+
+
 def attach_kani_modules(ov, modules, contracts_root):
     """Append one cfg(kani) line per module to the overlay copy; return the diff statistics.
     The overlay's function bodies stay byte-identical to /repo's: we assert that every
@@ -68,6 +96,9 @@ def attach_kani_modules(ov, modules, contracts_root):
         if not os.path.exists(src):
             raise LostAnchor("module src/%s.rs does not exist in /repo" % m)
         line = '#[cfg(kani)] #[path = "%s"] mod verif_kani;\n' % os.path.join(contracts_root, m + ".rs")
+        tw = write_twins(os.path.dirname(ov.rstrip("/")), m)
+        if tw:
+            line += '#[cfg(kani)] #[path = "%s"] mod verif_twins;\n' % tw
         with open(src, "a") as f:
             f.write("\n" + line)
         added[m] = line.strip()
